@@ -121,9 +121,23 @@ theorem OutRel.elim {ε α σ₁ σ₂ : Type} {R : σ₁ → σ₂ → Prop}
     | err e' => simp [OutRel] at h
     | panic => exact .inr (.inr ⟨rfl, rfl⟩)
 
+theorem readRest_sim {σ₁ σ₂ : Type} {S₁ : Source σ₁} {S₂ : Source σ₂} {R : σ₁ → σ₂ → Prop}
+    (sim : Sim S₁ S₂ R) (fuel : Nat) (s₁ : σ₁) (s₂ : σ₂) (acc : Bytes) (h : R s₁ s₂) :
+    (readRest S₁ fuel s₁ acc).1 = (readRest S₂ fuel s₂ acc).1 ∧
+    R (readRest S₁ fuel s₁ acc).2 (readRest S₂ fuel s₂ acc).2 := by
+  induction fuel generalizing s₁ s₂ acc with
+  | zero => simp [readRest, h]
+  | succ fuel ih =>
+    obtain ⟨hl, hr⟩ := sim.readUntil Bytes.LF s₁ s₂ h
+    simp only [readRest]
+    rw [hl]
+    split
+    · exact ⟨rfl, hr⟩
+    · exact ih _ _ _ hr
+
 theorem parseBody_sim {σ₁ σ₂ : Type} {S₁ : Source σ₁} {S₂ : Source σ₂} {R : σ₁ → σ₂ → Prop}
-    (sim : Sim S₁ S₂ R) (hs : Headers) (s₁ : σ₁) (s₂ : σ₂) (h : R s₁ s₂) :
-    OutRel R (parseBody S₁ hs s₁) (parseBody S₂ hs s₂) := by
+    (sim : Sim S₁ S₂ R) (code : Nat) (hs : Headers) (s₁ : σ₁) (s₂ : σ₂) (h : R s₁ s₂) :
+    OutRel R (parseBody S₁ code hs s₁) (parseBody S₂ code hs s₂) := by
   simp only [parseBody]
   by_cases hte : hs.get hTransferEncoding = some chunkedValue
   · simp only [hte, if_true]
@@ -135,7 +149,13 @@ theorem parseBody_sim {σ₁ σ₂ : Type} {S₁ : Source σ₁} {S₂ : Source 
     · simp [e₁, e₂, OutRel]
   · simp only [hte, if_false]
     cases hs.get hContentLength with
-    | none => simp [OutRel, h]
+    | none =>
+      simp only []
+      split
+      · simp [OutRel, h]
+      · rw [sim.remaining _ _ h]
+        obtain ⟨hb, hr⟩ := readRest_sim sim (S₂.remaining s₂ + 1) s₁ s₂ [] h
+        simp [OutRel, hb, hr]
     | some cl =>
       simp only []
       cases Bytes.parseUsize cl with
@@ -161,7 +181,7 @@ theorem parseResponse_sim {σ₁ σ₂ : Type} {S₁ : Source σ₁} {S₂ : Sou
     rcases (parseRespHeaders_sim sim (S₂.remaining (S₂.readUntil Bytes.LF s₂).2 + 1) _ _ [] hr).elim with
       ⟨hs, t₁, t₂, e₁, e₂, ht⟩ | ⟨e, e₁, e₂⟩ | ⟨e₁, e₂⟩
     · simp only [e₁, e₂]
-      rcases (parseBody_sim sim hs t₁ t₂ ht).elim with
+      rcases (parseBody_sim sim c hs t₁ t₂ ht).elim with
         ⟨hb, u₁, u₂, f₁, f₂, hu⟩ | ⟨e, f₁, f₂⟩ | ⟨f₁, f₂⟩
       · obtain ⟨hs', body⟩ := hb
         simp [f₁, f₂, OutRel, hu]
